@@ -301,7 +301,7 @@ def decide(pid, pc, tier, seed, work, t0, finder_driver):
     all_failed_fns = set((f['unit'], f['fn']) for f in failures)
     discharged = [e for e in mine if (e['unit'], e['fn']) not in all_failed_fns]
     known = [k for k in load_known() if k['property'] == pid and k.get('status', 'open') == 'open']
-    known_labels = {k['obligation']: k for k in known}
+    known_labels = {k['obligation']: k for k in known if k.get('obligation')}
     out_lines = []
     rc = 0
     rdir = os.path.join(VERIF, 'replay', pid)
@@ -394,7 +394,7 @@ def evidence(pid, pc, tier, seed, t0, mine, discharged, functions, results, smt_
     for r in results:
         for k, v in r.get('report', {}).get('rules_applied', {}).items():
             rules[k] = rules.get(k, 0) + v
-    level = 'proof' if (len(discharged) == len(mine) and mine and not undecided) else 'other'
+    level = 'proof' if (len(discharged) == len(mine) and mine and not undecided and not known_hit and pc.get('category', 'proof') == 'proof') else 'other'
     slow = {k: v for k, v in funcs_time.items() if v.get('ms', 0) > 20000}
     ev = dict(
         property_id=pid, tier=tier, seed=seed, level=level,
